@@ -199,10 +199,31 @@ Proof.
   - apply NoDup_map_filter. exact H.
 Qed.
 
+Lemma rename_vote_nodup : forall old new vs, NoDup (map fst vs) -> NoDup (map fst (rename_vote old new vs)).
+Proof.
+  intros old new vs H. unfold rename_vote. destruct (get_vote old vs); [|exact H].
+  apply set_vote_nodup. apply NoDup_map_filter. exact H.
+Qed.
+
+(* a rotation moves the person's vote: afterwards the new address carries it and the old one nothing *)
+Lemma rename_vote_moves : forall old new vs o, old <> new -> get_vote old vs = Some o ->
+  get_vote new (rename_vote old new vs) = Some o /\ get_vote old (rename_vote old new vs) = None.
+Proof.
+  intros old new vs o Hne H. unfold rename_vote. rewrite H. split; [apply get_vote_set_same|].
+  rewrite get_vote_set_other by assumption. unfold get_vote.
+  assert (E : find (fun v : Z * Z => fst v =? old) (filter (fun v => negb (fst v =? old)) vs) = None).
+  { clear. induction vs as [|[k x] r IH]; [reflexivity|]. cbn [filter fst].
+    destruct (Z.eqb_spec k old) as [->|Hk]; cbn [negb]; [exact IH|]. cbn [find fst].
+    destruct (Z.eqb_spec k old); [contradiction|exact IH]. }
+  rewrite E. reflexivity.
+Qed.
+
 Lemma votes_of_nodup : forall A content id (l : list (event A content)), NoDup (map fst (votes_of A content id l)).
 Proof.
   intros A content id l. induction l as [|e r IH]; [constructor|].
-  destruct e; cbn [votes_of]; try exact IH. destruct (id0 =? id); [apply set_vote_nodup; exact IH|exact IH].
+  destruct e; cbn [votes_of]; try exact IH.
+  - destruct (id0 =? id); [apply set_vote_nodup; exact IH|exact IH].
+  - apply rename_vote_nodup. exact IH.
 Qed.
 
 (* every finalisation with result Enactment made by the model satisfies the checker's "passed"
@@ -288,3 +309,46 @@ Proof.
   exists p. split; [exact Hs|]. split; [apply Z.leb_le; exact Hv|].
   rewrite chk_may_vote_matches. cbn [is_active has_vote_perm cP c_params] in Ha, Hp. rewrite Ha, Hp. reflexivity.
 Qed.
+
+(* ================================================================ who writes the lifecycle store
+   Every call site, in non-test code under x/ and app/, of a gov keeper method that writes or deletes
+   proposals, votes, queue entries or the proposal counter (regenerated on every run:
+   Gen/GovHandlers.v [lifecycle_writers]) is pinned here together with the model operation that
+   covers it.  A new writer breaks this obligation until it is added to the model alphabet.
+     x/gov/keeper msg_server + proposal.go  -> submit / vote            (harness: real msg server)
+     x/gov/abci.go                          -> end_block                (harness: real EndBlocker)
+     x/recovery RotateRecoveryAddress       -> ORotate (votes move with the person; harness: real msg server)
+     x/recovery RotateValidatorByHalfRRTokenHolder -> ORotate (same vote-moving loop; not exercised: needs RR tokens)
+     x/recovery ... SaveProposal, x/slashing RefuteSlashingProposal -> rewrite only the CONTENT of slash-validator
+                                               proposals (offender address / refutation text): outside the model
+     x/slashing Jail                        -> creates a slash proposal without proposer / dry run: outside the model
+     x/gov/genesis.go InitGenesis           -> chain start only (property C12) *)
+Definition pinned_writers : list string := [
+  "x/gov/abci.go:processEnactmentProposal:RemoveEnactmentProposal";
+  "x/gov/abci.go:processEnactmentProposal:SaveProposal";
+  "x/gov/abci.go:processProposal:AddToEnactmentProposals";
+  "x/gov/abci.go:processProposal:RemoveActiveProposal";
+  "x/gov/abci.go:processProposal:SaveProposal";
+  "x/gov/genesis.go:InitGenesis:AddToActiveProposals";
+  "x/gov/genesis.go:InitGenesis:AddToEnactmentProposals";
+  "x/gov/genesis.go:InitGenesis:SaveProposal";
+  "x/gov/genesis.go:InitGenesis:SaveVote";
+  "x/gov/genesis.go:InitGenesis:SetNextProposalID";
+  "x/gov/keeper/msg_server.go:SubmitProposal:CreateAndSaveProposalWithContent";
+  "x/gov/keeper/msg_server.go:VoteProposal:SaveVote";
+  "x/gov/keeper/proposal.go:CreateAndSaveProposalWithContent:AddToActiveProposals";
+  "x/gov/keeper/proposal.go:CreateAndSaveProposalWithContent:GetNextProposalIDAndIncrement";
+  "x/gov/keeper/proposal.go:CreateAndSaveProposalWithContent:SaveProposal";
+  "x/gov/keeper/proposal.go:GetNextProposalIDAndIncrement:SetNextProposalID";
+  "x/recovery/keeper/msg_server.go:RotateRecoveryAddress:DeleteVote";
+  "x/recovery/keeper/msg_server.go:RotateRecoveryAddress:SaveProposal";
+  "x/recovery/keeper/msg_server.go:RotateRecoveryAddress:SaveVote";
+  "x/recovery/keeper/msg_server.go:RotateValidatorByHalfRRTokenHolder:DeleteVote";
+  "x/recovery/keeper/msg_server.go:RotateValidatorByHalfRRTokenHolder:SaveProposal";
+  "x/recovery/keeper/msg_server.go:RotateValidatorByHalfRRTokenHolder:SaveVote";
+  "x/slashing/keeper/jail.go:Jail:CreateAndSaveProposalWithContent";
+  "x/slashing/keeper/msg_server.go:RefuteSlashingProposal:SaveProposal"
+]%string.
+
+Lemma lifecycle_writers_pinned : lifecycle_writers = pinned_writers.
+Proof. reflexivity. Qed.
